@@ -26,3 +26,16 @@ Proof.
     replace (1 * 1 + 0 * 0 + 0 * 0) with 1 by ring. rewrite sqrt_1.
     cbn [nabs ndiv nofZ RNum]. rewrite Rabs_R1. lra.
 Qed.
+
+(* ---------------- binary64: the shortcut's J is NOT zero everywhere in the bore.
+   Over R (full_segment_J_R) J = 0 for 0 < r <= r1.  In binary64 the two BHJM_magnet_cylinder calls of the shortcut
+   decide |z|/r0 <= (h/2)/r0 with their own r0; one ulp below the bottom plane the outer cylinder says "outside"
+   and the inner one "inside", so the ring reports J = 0 - J = -J in its empty bore. *)
+From Coq Require Import Floats.
+Lemma bore_witness_refutes :
+  @mask_segment FNum bore_witness = false /\
+  (let '((ox, oy, oz), _, (r1, _, h, _, _)) := bore_witness in
+   PrimFloat.ltb (PrimFloat.sqrt (ox * ox + oy * oy)) r1 = true /\          (* inside the bore *)
+   PrimFloat.ltb (h / 2) (PrimFloat.abs oz) = true)%float /\                (* and not between the face planes *)
+  @full_cylinder_spec FNum (@cyl_JM_row FNum mu0_f) FJ bore_witness = (0, 0, -1)%float.
+Proof. vm_compute. repeat split. Qed.
